@@ -19,6 +19,7 @@ from typing import TYPE_CHECKING, cast
 
 import libcst as cst
 
+from pynguin.assertion.assertion import FloatAssertion
 from pynguin.assertion.assertion_to_ast import assertion_to_cst
 from pynguin.testcase.execution import OutputSuppressionContext, suppress_logging
 from pynguin.utils.exceptions import TracingAbortedException
@@ -441,6 +442,13 @@ class TestSuiteWriter:
                 tc, module_name, project_path, subject_properties
             )
             if any(e is not None for e in exc_types):
+                needs_pytest = True
+            if any(
+                isinstance(assertion, FloatAssertion)
+                for statement in tc.statements()
+                for assertion in statement.assertions
+            ):
+                # Float assertions are rendered with pytest.approx
                 needs_pytest = True
             func, func_used_exc_types = self._build_test_function(idx, tc, exc_types)
             used_exc_types.update(func_used_exc_types)
